@@ -397,7 +397,40 @@ class C20(Prop):
         rng.shuffle(top)
         return [g_a, g_b, {"name": "root", "nodes": top, "bound": []}]
 
+    @staticmethod
+    def _container_feeds_renamed_container(rng: random.Random) -> list[dict]:
+        """A nested graph's output is read ONLY by another nested graph, which takes it under a RENAMED input: the dependency is drawn in
+        every mode and state."""
+        fn = gen._fn_node
+        g_a = {"name": "ingest", "nodes": [fn("load", [["src", None]], ["rows"], {"b": "tag", "t": "load"}), fn("embed", [["rows", None]], ["vectors"], {"b": "tag", "t": "embed"})],
+               "bound": [], "selected": ["vectors"] if rng.random() < 0.5 else None}
+        g_b = {"name": "indexer", "nodes": [fn("build", [["items", None]], ["index"], {"b": "tag", "t": "build"})], "bound": []}
+        if g_a["selected"] is None:
+            del g_a["selected"]
+        top = [{"name": "ingest", "kind": "graph", "inner": 0}, {"name": "indexer", "kind": "graph", "inner": 1, "inRen": [["items", "vectors"]]}]
+        if rng.random() < 0.5:
+            top.append(fn("publish", [["index", None]], ["url"], {"b": "tag", "t": "publish"}))
+        rng.shuffle(top)
+        return [g_a, g_b, {"name": "root", "nodes": top, "bound": []}]
+
+    @staticmethod
+    def _two_level_output_renames(rng: random.Random) -> list[dict]:
+        """ONE value renamed (with_outputs) at two nesting levels, read outside under its outermost name."""
+        fn = gen._fn_node
+        g0 = {"name": "core", "nodes": [fn("p", [["x", None]], ["a"], {"b": "tag", "t": "p"})], "bound": []}
+        mid_nodes = [{"name": "core", "kind": "graph", "inner": 0, "outRen": [["a", "b"]]}]
+        if rng.random() < 0.5:
+            mid_nodes.append(fn("q", [["b", None]], ["c"], {"b": "tag", "t": "q"}))
+        g1 = {"name": "mid", "nodes": mid_nodes, "bound": []}
+        top = [{"name": "mid", "kind": "graph", "inner": 1, "outRen": [["b", "d"]]}, fn("use", [["d", None]], ["e"], {"b": "tag", "t": "use"})]
+        rng.shuffle(top)
+        return [g0, g1, {"name": "root", "nodes": top, "bound": []}]
+
     def cases(self, rng: random.Random, tier: str) -> Iterable[dict]:
+        for _ in range(2):
+            yield {"program": self._two_level_output_renames(rng)}
+        for _ in range(3):
+            yield {"program": self._container_feeds_renamed_container(rng)}
         for _ in range(3):
             yield {"program": self._prefix_named_siblings(rng)}
         for _ in range(3):
